@@ -295,3 +295,87 @@ func ruleUploadParts(r *Run) {
 		"every call of Add appends exactly one new part for the upload it was given",
 		"UploadMap.Add can return without appending a new part (it searches/merges existing parts): two different files can end up as one multipart part, so one of them is never sent and its path receives the other's bytes")
 }
+
+// ruleUploadNumbering (R13f.parts): the `map` field and the file parts of a multipart request
+// name the same things: both are produced by ranging over the same UploadMap, the name is
+// strconv.Itoa of the loop's own index in both, and neither loop skips an element before it
+// writes. Two numberings that are computed differently (a dense counter in one, the list index
+// in the other) drift apart as soon as one element is skipped.
+func ruleUploadNumbering(r *Run) {
+	const rule = "R13f.parts"
+	type site struct {
+		fn   *ssa.Function
+		role string
+	}
+	var sites []site
+	if f := r.Anchor(rule, "queryer.(UploadMap).Map"); f != nil {
+		sites = append(sites, site{f, "the `map` field"})
+	}
+	if f := r.Anchor(rule, "queryer.prepareMultipart"); f != nil {
+		sites = append(sites, site{f, "the file parts"})
+	}
+	n := 0
+	for _, s := range sites {
+		fn := s.fn
+		found := false
+		for _, ins := range allInstrs(fn) {
+			c, ok := ins.(*ssa.Call)
+			if !ok || calleeName(&c.Call) != "strconv.Itoa" {
+				continue
+			}
+			found = true
+			n++
+			// the argument is the index phi of a range-over-slice loop whose slice is an UploadMap
+			idx := unwrap(c.Call.Args[0])
+			good, why := false, "the name is not the index of the loop over the upload list"
+			loop := innermostLoop(c.Block())
+			if loop != nil {
+				for b := range loop {
+					for _, i2 := range b.Instrs {
+						ia, ok := i2.(*ssa.IndexAddr)
+						if !ok || !strings.HasSuffix(namedOf(ia.X.Type()), "queryer.UploadMap") {
+							continue
+						}
+						if unwrap(ia.Index) == idx {
+							good = true
+						}
+					}
+				}
+			}
+			if good {
+				// no element is skipped: every path from the loop's body entry back to the
+				// header passes the naming call
+				var header, bodyEntry *ssa.BasicBlock
+				for b := range loop {
+					for _, p := range b.Preds {
+						if !loop[p] {
+							header = b
+						}
+					}
+				}
+				if header != nil {
+					for _, sc := range header.Succs {
+						if loop[sc] {
+							bodyEntry = sc
+						}
+					}
+				}
+				if bodyEntry != nil {
+					okAll, _ := mustPassUntil(bodyEntry, header, func(i ssa.Instruction) bool { return i == ssa.Instruction(c) })
+					// paths that leave the function (error returns) are fine; a path back to the
+					// header without naming the element is a skip
+					if !okAll {
+						good, why = false, "some elements of the upload list are skipped before they are named"
+					}
+				}
+			}
+			r.Check(good, rule, fnName(fn), "name of "+s.role, r.P.pos(c.Pos()),
+				"named by the index of the loop over the upload list, for every element",
+				s.role+" of the multipart request are no longer named by the position of the upload in the list ("+why+"): the `map` field and the parts are numbered by two different rules, so a path in `map` can point at a part that does not exist while a file travels under a name nothing refers to")
+		}
+		if !found {
+			r.Bad(rule, fnName(fn), "name of "+s.role, r.P.pos(fn.Pos()), "no strconv.Itoa naming found: the numbering of "+s.role+" cannot be compared with its sibling")
+		}
+	}
+	r.AtLeast(rule, "part-naming sites", n, 2)
+}
